@@ -197,8 +197,17 @@ class GaussianMixture:
                     X, mean=means[k], cov=np.eye(len(means[k])) * self.reg_covar
                 )
 
-        # Normalize
-        responsibilities /= np.sum(responsibilities, axis=1, keepdims=True) + 1e-10
+        # Normalize every row to sum to one. Dividing by (row sum + 1e-10) made the rows
+        # of low-density data (large measurement units, several dimensions: densities
+        # far below 1e-10) sum to almost nothing, which dragged the means towards the
+        # origin and out of the data. A point whose density underflowed under every
+        # component is shared according to the mixing weights.
+        row_sum = np.sum(responsibilities, axis=1, keepdims=True)
+        empty = ~(row_sum[:, 0] > 0)
+        row_sum[empty] = 1.0
+        responsibilities = responsibilities / row_sum
+        if np.any(empty):
+            responsibilities[empty] = weights
 
         return responsibilities
 
